@@ -535,7 +535,7 @@ func checkC17(c *core.Ctx) {
 		return
 	}
 	devs := gmodel.Filter(gmodel.Deviations(), "code", "commodity", "pipe-blanks", "header-kind", "note-shape", "desc-shape", "cost", "cost-amount", "assertion", "status", "posting-status",
-		"header-comment", "posting-comment", "tx-comment-line", "last-posting-comment", "entry-before", "entry-between", "line-end", "date2", "sign", "number", "account-shape", "posting-kind", "amount-sep", "blank-lines")
+		"header-comment", "posting-comment", "tx-comment-line", "comment-line-after-posting", "last-posting-comment", "entry-before", "entry-between", "line-end", "date2", "sign", "number", "account-shape", "posting-kind", "amount-sep", "blank-lines")
 	bound := 2
 	c.Bound("geometry", fmt.Sprintf("journals from G with <= %d deviations over %d deviations; fragment sequences <= 2", bound, len(devs)))
 	cache := map[string]map[string]bool{}
